@@ -176,7 +176,9 @@ def plan(prop, tier):
         P["rule"] = ("behaviours over set/del/mrg with the non-commutative append operator; every read path at every step; non-trivial = the behaviour contains a Merge and "
                      "two or more sections were non-empty at some observation")
     elif prop == "C11":
-        P["exhaustive"] = [("c11_small", C(Tree='"aa"', NKeys=1, OpAlpha='{"s1"}', MaxOps=1, MaxBatches=2 if q else 3, MaxPokes=0), ["ViewIsRef", "NamesAreRef", "StoreIsPrefix", "Structure"])]
+        P["exhaustive"] = [("c11_small", C(Tree='"aa"', NKeys=1, OpAlpha='{"s1"}', MaxOps=1, MaxBatches=2 if q else 3, MaxPokes=0), ["ViewIsRef", "NamesAreRef", "StoreIsPrefix", "Structure"]),
+                           # starting from a child collection restored from the store, with a reopen (29 k states at 3 batches)
+                           ("c11_small_pre", C(Tree='"a"', NKeys=1, OpAlpha='{"s1"}', MaxOps=1, MaxBatches=3, MaxPokes=0, MaxReopens=1, InitKids='{"a"}'), ["ViewIsRef", "NamesAreRef", "StoreIsPrefix", "Structure"])]
         P["sim"] = [("c11_walk", C(Tree='"aa"', NKeys=1, OpAlpha='{"s1","s2","d"}', MaxOps=1, MaxBatches=7, MaxPokes=2, SimLen=24, MaxReopens=1), 120 if q else 800),
                     ("c11_walk_ab", C(Tree='"ab"', NKeys=1, OpAlpha='{"s1","d"}', MaxOps=1, MaxBatches=7, MaxPokes=2, SimLen=22, MaxReopens=1), 80 if q else 500),
                     ("c11_walk_mem", C(Tree='"aa"', NKeys=1, OpAlpha='{"s1","s2","d"}', MaxOps=1, MaxBatches=7, MaxPokes=2, SimLen=16, HasLL="FALSE", LLInit="FALSE"), 40 if q else 300)]
